@@ -1,5 +1,6 @@
 import RawPanelVerif.Lemmas.GorwpDispatch
 import RawPanelVerif.Lemmas.GorwpLts
+import RawPanelVerif.Lemmas.GorwpDeadline
 /-!
 # C19 — the high-level client `gorwp`: property theorems
 
@@ -41,9 +42,27 @@ import RawPanelVerif.Lemmas.GorwpLts
     writer decreases `measure`; a tick adds ≤ 1), `all_dispatched_eventually` (every infinite run that is strongly fair
     to reader, dispatcher and writer eventually has dispatched exactly the messages before the first broken frame;
     `demoRun`/`demo_fair`: such runs exist).
+  * `at_most_queue_capacity_lost_at_broken_frame` — once the reader has stopped at a broken frame every earlier message
+    is dispatched or queued: at most `fromPanel`'s capacity of messages can go undispatched (what the monitor's and the
+    driver's allowance around an over-limit header is bounded by).
+(c) The reader's read deadlines as a timed LTS (`Model/Gorwp.lean` (c): whole headers / payloads / lines; every
+    `SetReadDeadline` call site of `readFromPanel` — and the probe deadline `AutoDetect…` leaves armed — is a field of
+    the configuration `DlCfg`; `coded` is regenerated from the source: constants and the syntactic places of the resets).
+  * `init_window_is_the_documented_one` — the 2 s initialisation window of the property text (`Spec.initWindowMs`) is the
+    constant of `init`'s `time.After`; `coded_resets_in_place` — the code has the header resets (binary: first statement of
+    the frame loop; ASCII: before the line loop), arms the payload deadline with the extracted 2 s, heartbeat 1 s < 2 s.
+  * `quiet_period_harmless` (every configuration with the header reset, either mode; `…_coded` for the code): while the
+    reader waits for a header / line no deadline is armed and the timeout is not enabled — no silence ends the connection.
+  * `expire_only_inside_late_frame` — the timeout fires only inside a frame, `T` ms or more after its header.
+  * `reset_hoisted_counterexample` — the reset hoisted out of the frame loop (seeded change C19-7): 2 s of silence after a
+    frame end the connection, the next frame is not read; `hoisted_reset_needs_silence` — but only a silence of `T` since the
+    last frame's header does: a panel that acknowledges the 1 s heartbeat hides the defect (why the scripts of class (12)
+    leave the heartbeat unanswered).
+  Outside (c): the bytes inside a header (the code has no deadline call between them), the 10 ms poll of `init`.
 -/
 namespace RawPanelVerif.C19
 open RawPanelVerif.Gorwp RawPanelVerif.Spec.Gorwp RawPanelVerif.GorwpBridge RawPanelVerif.GorwpDispatch RawPanelVerif.GorwpLts
+open RawPanelVerif.GorwpDeadline
 
 /-! ## (a) dispatch -/
 
@@ -804,7 +823,117 @@ theorem all_dispatched_eventually (c : Caps) (hf : 0 < c.fromPanel) (ht : 0 < c.
       exact List.eq_nil_of_length_eq_zero (by omega)
     simp [this, goodPrefix]
 
+/-- AT MOST THE QUEUE IS LOST AT A BROKEN FRAME (reader with the over-limit `return`, every capacity, both loop
+variants): once the reader has stopped at a broken frame, every forwarded message before that frame has been
+dispatched or is in `fromPanel` — so if the dispatcher stops at the cancelled context right then, no more than
+`c.fromPanel` messages (the last ones) go undispatched.  The driver and the monitor demand accordingly all but the last
+`Gen.gorwpFromPanelCap` events sent right before an over-limit header. -/
+theorem at_most_queue_capacity_lost_at_broken_frame (c : Caps) (dec : Bool) (stream0 : List Frame) (s : QSt)
+    (h : QReachable c true dec stream0 s) (hr : s.readerRunning = false) :
+    s.dispatched ++ s.fromPanel.map (·.1) = goodPrefix stream0
+    ∧ (goodPrefix stream0).length ≤ s.dispatched.length + c.fromPanel := by
+  have hi := qinv_reachable h
+  have h3 := (qinv3_reachable h).2
+  unfold QInv at hi
+  rw [hr] at hi
+  simp only [Bool.false_eq_true, if_false, List.append_nil] at hi
+  refine ⟨hi, ?_⟩
+  rw [← hi, List.length_append, List.length_map]
+  omega
+
+/-! ## (c) the reader's read deadlines
+
+`Model/Gorwp.lean` (c): the timed LTS of `readFromPanel` with every `SetReadDeadline` call site as a field of the
+configuration; `coded` is built from what the extractor reads in the source (constants AND the syntactic places of the
+resets), so the statements about `coded` stop to check when a reset is moved. -/
+
+/-- the initialisation window of the property text (2 s) is the constant `init` waits for -/
+theorem init_window_is_the_documented_one : Gen.gorwpInitWindowMs = Spec.Gorwp.initWindowMs := by decide
+
+/-- the code has its resets where the theorems below need them (binary: first statement of the frame loop; ASCII:
+before the line loop, nothing in it) and arms the payload deadline with the extracted constant; the heartbeat
+period of the client is shorter than that deadline -/
+theorem coded_resets_in_place :
+    coded.hdrClear false = true ∧ coded.hdrClear true = true ∧ coded.binPayload = .arm Gen.gorwpFrameTimeoutMs
+    ∧ Gen.gorwpHeartbeatMs < Gen.gorwpFrameTimeoutMs := by decide
+
+/-- **QUIET PERIODS ARE HARMLESS** (either mode; every configuration that has the header reset — binary: at the loop
+top; ASCII: at the loop top or before a loop without deadline calls): in every reachable state in which the reader
+waits for a header / a line, no read deadline is armed and `expire` is not enabled, whatever the time.  So no silence
+of the panel, however long, ends the connection. -/
+theorem quiet_period_harmless (cfg : DlCfg) (ascii : Bool) (hc : cfg.hdrClear ascii = true) (s : RdSt)
+    (h : RdReach cfg ascii s) (hp : s.phase = .header) :
+    s.rd = none ∧ ∀ now, rstep cfg ascii s (.expire now) = none := by
+  have hd := hdrInv_reachable hc h hp
+  exact ⟨hd, fun now => by simp [rstep, hd]⟩
+
+/-- … for the code as the extractor reads it, in both modes -/
+theorem quiet_period_harmless_coded (ascii : Bool) (s : RdSt) (h : RdReach coded ascii s) (hp : s.phase = .header) :
+    s.rd = none ∧ ∀ now, rstep coded ascii s (.expire now) = none :=
+  quiet_period_harmless coded ascii (by cases ascii <;> decide) s h hp
+
+/-- **a deadline fires only inside a late frame**: with the header reset in place and the payload deadline `T`, the
+timeout can fire only while the reader waits for a payload, and only `T` ms or more after that frame's header -/
+theorem expire_only_inside_late_frame (cfg : DlCfg) (ascii : Bool) (T : Nat) (hc : cfg.hdrClear ascii = true)
+    (hpay : cfg.binPayload = .arm T) (s s' : RdSt) (now : Nat) (h : RdReach cfg ascii s)
+    (hx : rstep cfg ascii s (.expire now) = some s') : s.phase = .payload ∧ s.lastHdr + T ≤ now := by
+  obtain ⟨d, hd, hns, _, hdn, _⟩ := rstep_expire hx
+  have hh := hdrInv_reachable hc h
+  have hp := payInv_reachable hpay h
+  cases hph : s.phase with
+  | header => have := hh hph; rw [this] at hd; cases hd
+  | stopped => exact absurd hph hns
+  | payload =>
+    have := hp hph
+    rw [this] at hd
+    have : d = s.lastHdr + T := (Option.some.inj hd).symm
+    exact ⟨rfl, by omega⟩
+
+/-- **the loop-top reset is needed where it is** (the shape of seeded change C19-7: the reset hoisted out of the frame
+loop): after one frame the payload deadline stays armed, 2 s of silence end the connection and the frame that comes
+after the silence is not read; the code as it is reads it. -/
+theorem reset_hoisted_counterexample :
+    (rrun (resetHoisted coded) false (RdSt.start (resetHoisted coded) false 0 10) [.hdr 100, .body 101, .expire 2100]).map (·.phase)
+      = some .stopped
+    ∧ rrun (resetHoisted coded) false (RdSt.start (resetHoisted coded) false 0 10) [.hdr 100, .body 101, .hdr 2700] = none
+    ∧ (rrun coded false (RdSt.start coded false 0 10) [.hdr 100, .body 101, .hdr 2700, .body 2701]).map (·.forwarded) = some 2
+    ∧ rrun coded false (RdSt.start coded false 0 10) [.hdr 100, .body 101, .expire 2100] = none := by decide
+
+/-- … and why a panel that acknowledges the client's heartbeat hides it: in that configuration (payload deadline `T`)
+the timeout can fire only `T` ms or more after the header of the LAST frame — a panel that sends any frame (an
+acknowledge per heartbeat, period `Gen.gorwpHeartbeatMs` < `T`, `coded_resets_in_place`) at shorter intervals is never
+dropped; only a real silence of `T` shows the defect -/
+theorem hoisted_reset_needs_silence (cfg : DlCfg) (T : Nat) (hpay : cfg.binPayload = .arm T)
+    (hb : cfg.binBeforeLoop = .clear) (ht : cfg.binLoopTop = .skip) (s s' : RdSt) (now : Nat)
+    (h : RdReach cfg false s) (hx : rstep cfg false s (.expire now) = some s') : s.lastHdr + T ≤ now := by
+  obtain ⟨d, hd, _, _, hdn, _⟩ := rstep_expire hx
+  have := staleInv_reachable hpay hb ht h d hd
+  omega
+
 /-! ## non-vacuity -/
+
+/-- a reachable state of the timed reader that waits for a header after two frames and 5 s of silence in between -/
+example : ∃ s, RdReach coded false s ∧ s.phase = .header ∧ s.forwarded = 2 ∧ s.clock = 5101 := by
+  refine ⟨⟨.header, none, 5101, 5100, 2⟩, ?_, rfl, rfl, rfl⟩
+  have h0 := RdReach.start (cfg := coded) (ascii := false) 0 10 (by omega)
+  have h1 := RdReach.step (.hdr 100) h0 (s' := ⟨.payload, some 2100, 100, 100, 0⟩) (by decide)
+  have h2 := RdReach.step (.body 101) h1 (s' := ⟨.header, none, 101, 100, 1⟩) (by decide)
+  have h3 := RdReach.step (.hdr 5100) h2 (s' := ⟨.payload, some 7100, 5100, 5100, 1⟩) (by decide)
+  exact RdReach.step (.body 5101) h3 (by decide)
+
+/-- the timeout does fire inside a stalled frame (so `expire_only_inside_late_frame` is not vacuous) -/
+example : (rrun coded false (RdSt.start coded false 0 10) [.hdr 100, .expire 2100]).map (·.phase) = some .stopped := by decide
+/-- ASCII: lines after long silences are read -/
+example : (rrun coded true (RdSt.start coded true 0 2010) [.line 2100, .line 9000]).map (·.forwarded) = some 2 := by decide
+/-- the hoisted configuration satisfies the hypotheses of `hoisted_reset_needs_silence` -/
+example : (resetHoisted coded).binPayload = .arm Gen.gorwpFrameTimeoutMs ∧ (resetHoisted coded).binBeforeLoop = .clear
+    ∧ (resetHoisted coded).binLoopTop = .skip := by decide
+/-- a stopped reader with two messages still queued: they are the last two of the good prefix -/
+example : (qrun caps true true (qinit [.valid 1 0, .valid 2 0, .valid 3 0, .overLimit, .valid 4 0])
+    [.readerFrame, .loopTakeFrom, .readerFrame, .readerFrame, .readerFrame]).map
+      (fun s => decide (s.readerRunning = false ∧ s.dispatched = [1] ∧ s.fromPanel.map (·.1) = [2, 3])) = some true := by decide
+
+/-! ## non-vacuity, (a) and (b) -/
 
 example : checkLog (toSBindings { trigger := [1], binary := [1, 2] })
     (eventsOf (histItems [{ events := [{ id := 1, binary := some ⟨true, 4⟩ }, { id := 2, pulsed := some 1 }, { id := 2, binary := some ⟨false, 0⟩ }] }]))
